@@ -123,7 +123,8 @@ func (i *Index) Encode() ([]byte, error) {
 	if err := utils.Compress(buf, compressed); err != nil {
 		return nil, err
 	}
-	return compressed.Bytes(), nil
+	// the buffer goes back to the pool when this function returns, the caller gets its own copy
+	return bytes.Clone(compressed.Bytes()), nil
 }
 
 func (i *Index) Decode(index []byte) error {
